@@ -59,6 +59,12 @@ var defaultPureMethods = []string{
 	"github.com/janelia-flyem/dvid/storage.Context.Versioned",
 	"github.com/janelia-flyem/dvid/storage.VersionedCtx.VersionID",
 	"github.com/janelia-flyem/dvid/storage.VersionedCtx.Versioned",
+	"github.com/janelia-flyem/dvid/storage.Context.ConstructKey",
+	"github.com/janelia-flyem/dvid/storage.VersionedCtx.ConstructKey",
+	"github.com/janelia-flyem/dvid/storage.VersionedCtx.TombstoneKey",
+	"github.com/janelia-flyem/dvid/storage.VersionedCtx.UnversionedKeyPrefix",
+	"github.com/janelia-flyem/dvid/storage.VersionedCtx.MinVersionKey",
+	"github.com/janelia-flyem/dvid/storage.VersionedCtx.MaxVersionKey",
 	"github.com/janelia-flyem/dvid/dvid.Point.Value",
 	"github.com/janelia-flyem/dvid/dvid.Point.NumDims",
 }
